@@ -1,8 +1,12 @@
 #!/usr/bin/env python3
 """cross.py [names...]: runs EVERY quick check against each seeded change (scratch copy + patch) and records which
 checks raise an alarm, in seeded/<name>/cross.json. Used to study attribution (alarms of checks other than the target)."""
+HSNAP = None
 import json, os, shutil, subprocess, sys, time
 VERIF = "/verif"
+import tempfile
+HSNAP = tempfile.mkdtemp(prefix="vf-harness-")
+shutil.rmtree(HSNAP); shutil.copytree("/verif/harness", HSNAP)
 names = sys.argv[1:] or sorted(os.listdir(os.path.join(VERIF, "seeded")))
 props = [json.loads(l)["id"] for l in open(os.path.join(VERIF, "properties.jsonl"))]
 for name in names:
@@ -23,7 +27,7 @@ for name in names:
         zchange = "z/" in files
         if files and zprop != zchange and not (p == "C18" and "bbloom" in files) and not (p == "C09" and "bbloom" in files):
             continue
-        e = dict(os.environ, VERIF_REPO=d, VERIF_WORK=d + ".work", VERIF_EVIDENCE_DIR=d + ".ev", VERIF_BUILD=d + ".build")
+        e = dict(os.environ, VERIF_REPO=d, VERIF_WORK=d + ".work", VERIF_EVIDENCE_DIR=d + ".ev", VERIF_BUILD=d + ".build", VERIF_HARNESS=HSNAP)
         t0 = time.time()
         c = subprocess.run([VERIF + "/check", p, "--tier", "quick"], cwd=VERIF, env=e, capture_output=True, text=True)
         sig = [l.strip()[:220] for l in c.stdout.splitlines() if l.strip().startswith("signature=")]
